@@ -224,7 +224,7 @@ func (m *Model) RunLayout(s *Sink, rule string) {
 		check(fnKey(al)+"|the use statement carries the layout", m.Pos(al.Pos()), okProg, "UseStmt.Program = layout program", "the layout program is not attached to the use statement")
 	}
 	// the layout flag is set before applying; a layout that uses a layout is rejected
-	alp := m.PkgFunc("textwire", "applyLayoutToProgram")
+	alp := m.PkgFuncOr("textwire", "applyLayoutToProgram", func(f *ssa.Function) bool { return callsNamed(f, "ApplyLayout", "ast.Program") })
 	if alp != nil {
 		var flag ssa.Instruction
 		var apply ssa.Instruction
